@@ -8,7 +8,8 @@ import MySensors.Lemmas.GwRel
 import MySensors.Lemmas.Ota
 import MySensors.Properties.C02
 
-namespace MySensors
+namespace MySensors.C10
+open MySensors
 
 variable {ν : Type}
 
@@ -1028,4 +1029,4 @@ theorem streamResBy_sessions (h : HandlerId) (g : GW) (m : Msg) (hok : StoresOk 
     intro hi; rw [hi]; split <;> rfl
   · exact ⟨_, refinesS_same g m _ rfl hok, id⟩
 
-end MySensors
+end MySensors.C10
